@@ -22,9 +22,9 @@ build_demo() { cc -O1 -g -I$W/include $O/demo.c -o $O/demo -rdynamic -L$W/_build
 build_demo || { say "demo build failed"; exit 1; }
 ( cd $O && timeout 300 ./demo > $O/demo_changed.txt 2>&1 ); rc1=$?
 say "demo on changed tree: exit $rc1"
-git stash -q; cmake --build $W/_build >/dev/null 2>&1
+git diff -- src > $O/.worktree.diff; git apply -R $O/.worktree.diff; cmake --build $W/_build >/dev/null 2>&1
 build_demo
 ( cd $O && timeout 300 ./demo > $O/demo_unchanged.txt 2>&1 ); rc0=$?
 say "demo on unchanged tree: exit $rc0"
-git stash pop -q; cmake --build $W/_build >/dev/null 2>&1
+git apply $O/.worktree.diff; rm -f $O/.worktree.diff; cmake --build $W/_build >/dev/null 2>&1
 [ $rc1 -ne 0 ] && [ $rc0 -eq 0 ] && say "CONFIRMED" || say "NOT CONFIRMED"
